@@ -119,6 +119,18 @@ class DataflowRules:
                         self.add("UNIT/double-conversion", False, fr, node, txt, f"value already in degrees converted again: {norm(node)}", arg=a0.brief())
                     elif a0.unit == "rad":
                         self.add("UNIT/double-conversion", True, fr, node, txt, "radians converted to degrees")
+        if isinstance(t, FuncInfo) and t.name.startswith("_xyz_to_lonlat") and args:
+            nz = p["kwargs"].get("normalize")
+            nz_node = next((k.value for k in node.keywords if k.arg == "normalize"), None)
+            if nz is not None and nz.const is not None and nz.const[1] is False and isinstance(nz_node, ast.Constant):
+                a0 = args[0]
+                txt = f"{t.name}({norm(node.args[0]) if node.args else ''}, normalize=False)"
+                if a0.unitlen:
+                    self.add("UNIT/unit-length", True, fr, node, txt, "argument is the result of a normalisation: unit length")
+                elif a0.vars and any(v.endswith(("_x", "_y", "_z")) for v in a0.vars):
+                    self.add("UNIT/unit-length", False, fr, node, txt,
+                             f"{sorted(a0.vars)[0]} as stored (possibly supplied by the source with non-unit length) is converted with normalize=False: arcsin(z) is only the latitude on the unit sphere",
+                             arg=a0.brief())
         # alias: internal dataset handed to another owner
         if isinstance(t, ClassInfo) and t.name == "Grid" and args:
             a0 = args[0]
@@ -153,6 +165,11 @@ class DataflowRules:
                         self.add("UNIT/store", False, fr, node, txt, f"radians stored under {key} (degrees by the schema)", value=val.brief())
                     elif val.unit == "deg":
                         self.add("UNIT/store", True, fr, node, txt, f"degrees stored under {key}")
+                if r == "lon" and val.rng is not None:
+                    if val.rng == "pos":
+                        self.add("RANGE/store-lon", False, fr, node, txt, f"longitude stored under {key} is in [0, 360) (result of a modulo by a full turn), not in [-180, 180]", value=val.brief())
+                    elif val.rng == "norm":
+                        self.add("RANGE/store-lon", True, fr, node, txt, f"longitude stored under {key} is wrapped to [-180, 180)")
                 if val.role is not None:
                     if val.role != r:
                         self.add("ROLE/store", False, fr, node, txt, f"a value with role '{val.role}' is stored under {key}", value=val.brief())
